@@ -57,6 +57,11 @@ FINDINGS = {
             "what": "a structure whose enum or flag field holds a plain integer equals the one holding the member (and "
                     "the parse of its own dump) but hashes differently: members compare equal to their integer value yet "
                     "hash together with their class (struct K { E e; }: K(e=1) == K(e=E.Q), hash differs)"},
+    "K16": {"props": ["C06"],
+            "what": "a bit-field member given an explicit offset through the API, directly after a partly used unit of the "
+                    "same storage type: the layout opens a new unit at that offset, both readers keep slicing the previous "
+                    "unit and the writer merges both members into one unit at the new offset (a:4 at 0, b:4 at offset 5 of "
+                    "uint8: 21 00 00 00 00 43 parses b = 2, T(a=1, b=2) dumps 00 00 00 00 00 21)"},
     "K9": {"props": ["C04"],
            "what": "aligned structure used at an unaligned offset of a packed structure: its tail padding is computed "
                    "from the absolute stream position, so bytes consumed / dumped differ from len() and array elements "
